@@ -90,7 +90,10 @@ class UploadHandler(RequestHandlerBase):
     def save_file(self, file_upload: FileStorage,
                   stream: models.Stream) -> flask.Response:
         logging.debug("File %s uploaded", file_upload.filename)
-        mf = stream.add_file(file_upload, commit=True)
+        try:
+            mf = stream.add_file(file_upload, commit=True)
+        except ValueError as err:
+            return self.return_error(str(err))
         result = mf.toJSON()
         result['blob']['created'] = datetime.datetime.now()
         logging.debug("upload done %s", mf.name)
